@@ -562,6 +562,11 @@ func writeHeaderOnlyResponse(w io.Writer, res *http.Response) error {
 				return err
 			}
 		}
+
+		// Terminate the Trailer field line.
+		if _, err := io.WriteString(w, "\r\n"); err != nil {
+			return err
+		}
 	}
 
 	// End-of-header
